@@ -97,6 +97,8 @@ def canon(v, idmap=None, depth=0, seen=None):
             d = v._d
         elif tn == 'SimIter':
             d = {'items': v._items, 'inf': v._inf}
+        elif tn == 'SimNum':
+            d = {'v': v._v}
         elif tn == 'ScopeVars':
             d = v.__dict__
         elif hasattr(v, '__dict__') and tn in ('Obj', 'ROProp'):
